@@ -1205,7 +1205,11 @@ def gen_setcap(R, h, names, impl=None):
     occd = [n for n in names if impl is not None and impl.space[h.key(n)]._agents]
     c = R.choice(occd) if occd and R.random() < 0.7 else R.choice(names)
     n = len(impl.space[h.key(c)]._agents) if impl is not None else 1
-    k = R.choice(["-", "0", "1", "1", "2", "3", str(max(0, n - 1)), str(n), str(n + 1)])
+    cur = impl.space[h.key(c)].capacity if impl is not None else h.capof(c)
+    for _ in range(4):  # mostly a value other than the one the cell has
+        k = R.choice(["-", "0", "1", "1", "2", "3", str(max(0, n - 1)), str(n), str(n + 1)])
+        if k != ("-" if cur is None else str(cur)):
+            break
     if R.random() < 0.04:
         c = ",".join(str(d) for d in h.dims) if h.kind == "grid" else str(h.n + 1)  # no such cell
     return f"setcap {c} {k}"
